@@ -322,7 +322,7 @@ def run(R, env):
     lowlevel = []
     for site_, c_ in shared.site_contexts(prog, CRATE, env).items():
         for o_ in storage_ops_deep(prog, c_, env.depth):
-            if o_["kind"] == "w" and ns_of(prog, o_["args"][0]) == "unstake_requests" and o_["op"] not in ("save", "update", "remove"):
+            if o_["kind"] == "w" and ns_of(prog, o_["args"][0]) == "unstake_requests" and o_.get("wop", o_["op"]) not in ("save", "update", "remove"):
                 lowlevel.append("%s in %s (%s)" % (o_["op"], site_, o_["loc"]))
     R.ob("C17.R3", "index-maintained-by-the-library", not lowlevel, "the unstake-request IndexedMap is written through %s: the by_user index entry that is dropped is the one of the caller-supplied old value, not of the stored record" % lowlevel, fn="staking::state")
     R.ob("C17.R3", "no-raw-storage-writes", not raw, "raw storage writes at %s bypass the IndexedMap index upkeep" % raw, fn="staking")
